@@ -77,7 +77,11 @@ func H_c02_build() {
 	for t := 0; t < n; t++ {
 		j := Job{Command: nondet_u32("cmd"), RequestID: nondet_u32("rid")}
 		var plain []byte
-		k := nondet_choice("nargs", 3)
+		maxArgs := 2
+		if n == 2 {
+			maxArgs = verif_bound("two-task-batch-max-args", 1, 2)
+		}
+		k := nondet_choice("nargs", maxArgs+1)
 		for a := 0; a < k; a++ {
 			v, enc := verifNondetArg(nondet_choice("arg-type", 11))
 			j.Data = append(j.Data, v)
